@@ -161,6 +161,10 @@ func (b *bitstream) Next() error {
 	if !b.stack.empty() {
 		cur := b.stack.peek()
 		if b.pos == cur.end {
+			if cur.code == bitcodeStruct && b.state == bssBeforeValue {
+				// The struct ended right after a field name.
+				return &SyntaxError{"struct field has no value", b.pos}
+			}
 			b.code = bitcodeEOF
 			return nil
 		}
